@@ -449,6 +449,20 @@ func nilOfSort(s string) Term {
 }
 
 func (e *SpecEnv) evalCall(n *Node) SV {
+	if n.Name == "atreturn" { // atreturn(g, e): e in the heap as it was when the call named by call-site ghost g returned
+		if len(n.Args) != 2 || n.Args[0].Op != "ident" {
+			return e.fail("atreturn(ghost, expr)")
+		}
+		snap, ok := e.P.GhostHeap[n.Args[0].Name]
+		if !ok {
+			return e.fail("atreturn: the call of ghost %s was not made on this path", n.Args[0].Name)
+		}
+		savedOld, savedIn := e.Old, e.inOld
+		e.Old, e.inOld = snap, true
+		v := e.eval(n.Args[1])
+		e.Old, e.inOld = savedOld, savedIn
+		return v
+	}
 	c := e.C
 	// predicates (macros)
 	if pr, ok := c.U.Preds[n.Name]; ok {
